@@ -692,6 +692,14 @@ func runC17(tier string, seed int64, outdir string, replay string) error {
 			}
 			return nil
 		}
+		if cl == "e2e-throttle" {
+			var ep c17E2EPlan
+			if err := json.Unmarshal(rc.In, &ep); err != nil {
+				return err
+			}
+			c17E2E(w, []c17E2EPlan{ep})
+			return nil
+		}
 		if cl == "race-detector-stress" {
 			c17RaceEmit(w, c17RaceDetector())
 			return nil
@@ -719,6 +727,9 @@ func runC17(tier string, seed int64, outdir string, replay string) error {
 		if tier == "thorough" {
 			c17RaceEmit(w, c17RaceDetector())
 		}
+		// first attempts through the real ACMEIssuer against a mock ACME CA (sets the package
+		// variables RateLimitEvents / RateLimitEventsWindow: nothing else runs meanwhile)
+		c17E2E(w, c17E2EPlans(tier))
 		for i, c := range c17Corpus() {
 			jobs = append(jobs, job{c.class, c.plan, seed*1000 + int64(i)})
 		}
